@@ -4,6 +4,8 @@ import (
 	"fmt"
 	"testing"
 
+	"github.com/influxdata/influxdb/v2/models"
+
 	"verifharness/internal/model"
 )
 
@@ -81,7 +83,7 @@ func TestKnown_delete_index_prefix_series_kept(t *testing.T) {
 	if len(st.prefixKept) != 1 {
 		t.Fatalf("signature does not recognise the reproducer: %v", st.prefixKept)
 	}
-	mc.staleOK = map[string]bool{} // observe without the tolerance
+	mc.staleOK, mc.staleHours = map[string]bool{}, map[string]map[int]bool{} // observe without the tolerance
 	f := mc.observe()
 	reproduced := f != nil && (f.Key == "series-listed-without-data" || f.Key == "series-cardinality")
 	if f != nil && !reproduced {
@@ -145,4 +147,57 @@ func TestKnown_write_to_idle_shard_waits_for_delete(t *testing.T) {
 	rec.Known(t, "TestKnown_write_to_idle_shard_waits_for_delete", knownIdleKey, blocked == 3,
 		"delete [1000,2000] of bucket data held open while writing tombstones; a write of m0,host=a@5000 (outside the range) to the same, just snapshotted shard (empty cache): "+detail+" — Store.WriteToShard -> Shard.IsIdle -> Engine.IsIdle -> DefaultPlanner.FullyCompacted -> FileStore.Stats needs the FileStore write lock (the stats cache was invalidated by the delete's first Apply) and waits for the delete's FileStore.Apply, which keeps the read lock for as long as tombstones are written; with a non-empty cache IsIdle returns early and the write is not blocked",
 		map[string]any{"scenario": sc})
+}
+
+// TestKnown_series_listed_while_tsm_key_fully_tombstoned: two deletes remove the two points of a
+// series in a TSM file ([2999, ...] takes the later point, [min, 0] the earlier one). The TSM
+// reader only drops a key from its index when the tombstone ranges cover the key's whole block time
+// range without a gap (indirectIndex.DeleteRange); here the gap (0, 2999) holds no point, so every
+// value is tombstoned but the key stays, deleteSeriesRange's reconciliation finds the key and keeps
+// the series in the index: it is still enumerated / counted / its measurement listed although it
+// has no remaining data.
+func TestKnown_series_listed_while_tsm_key_fully_tombstoned(t *testing.T) {
+	mc, err := newMachine(2, []string{"m0x,host=a"})
+	if err != nil {
+		t.Fatal(err)
+	}
+	defer mc.close()
+	if err := mc.write([]wpoint{
+		{Series: "m0x,host=a", T: 0, Fields: map[string]model.Val{"ff": {K: model.Float, F: 21.5}}},
+		{Series: "m0x,host=a", T: hourNs - 1, Fields: map[string]model.Val{"ff": {K: model.Float, F: 24.5}}},
+	}); err != nil {
+		t.Fatal(err)
+	}
+	if err := mc.snapshot(0); err != nil {
+		t.Fatal(err)
+	}
+	if _, err := mc.delete(2999, 2*hourNs-1, nil, false); err != nil {
+		t.Fatal(err)
+	}
+	if f := mc.observe(); f != nil {
+		t.Fatalf("after the first delete: %s %s", f.Key, f.Detail)
+	}
+	if _, err := mc.delete(models.MinNanoTime, 0, pred{{"host", "a"}}, false); err != nil {
+		t.Fatal(err)
+	}
+	if len(mc.hoursWithTSMKey("m0x,host=a")) == 0 {
+		rec.Known(t, "TestKnown_series_listed_while_tsm_key_fully_tombstoned", knownTombKey, false, "", nil)
+		if f := mc.observe(); f != nil {
+			t.Fatalf("no TSM key left but: %s %s", f.Key, f.Detail)
+		}
+		return
+	}
+	// observe as if the finding were not listed
+	f := mc.observeWith(false)
+	reproduced := f != nil && (f.Key == "series-listed-without-data" || f.Key == "series-cardinality" || f.Key == "measurement-listing")
+	if f != nil && !reproduced {
+		t.Fatalf("unexpected disagreement: %s %s", f.Key, f.Detail)
+	}
+	what := "m0x,host=a ff@0 and @1h-1ns in one TSM file; delete [2999, 2h-1ns] (no predicate), then delete [min, 0] host=\"a\": "
+	if f != nil {
+		what += f.Key + ": " + f.Detail
+	}
+	rec.Known(t, "TestKnown_series_listed_while_tsm_key_fully_tombstoned", knownTombKey, reproduced,
+		what+" — every value of the TSM key is tombstoned, but the tombstone ranges leave a gap (without points) inside the key's block range, so indirectIndex.DeleteRange keeps the key and tsm1.Engine.deleteSeriesRange, which reconciles the index by key presence, keeps the series",
+		map[string]any{"ops": mc.ops, "observed": fmt.Sprint(f)})
 }
